@@ -28,6 +28,7 @@ Definition idx_length (idx : index) : Z :=
 
 Inductive err :=
 | EEOF            (* io.EOF *)
+| EUnexpectedEOF  (* io.ErrUnexpectedEOF *)
 | EWhence         (* "invalid whence" *)
 | ENegative       (* "unable to seek before start of file" *)
 | EEmptyBlob      (* "seek in an empty blob" *)
@@ -37,6 +38,14 @@ Inductive err :=
 | EStore (code : N).   (* error returned by the store (code chosen by the fault oracle) *)
 
 Inductive sres := SData (d : bytes) | SFail (code : N).
+(* Error values of a failing store.  Code [code_bare_eof] is the value io.EOF itself (a remote that went away);
+   every other code is some other error value -- including one whose chain merely CONTAINS io.EOF
+   (errors.Wrap(io.EOF, ...), what a StoreRouter makes of a store's io.EOF): [code_wrapped_eof]; it is != io.EOF. *)
+Definition code_bare_eof : N := 4%N.
+Definition code_wrapped_eof : N := 5%N.
+Definition store_err (c : N) : err := if N.eqb c code_bare_eof then EEOF else EStore c.
+(* what Read makes of a failed load: "if err == io.EOF { err = io.ErrUnexpectedEOF }" *)
+Definition read_err (e : err) : err := match e with EEOF => EUnexpectedEOF | _ => e end.
 Definition store_t := nat -> id -> sres.
 
 (* Results of operations that may panic (index out of range) or, in the model only, run out of fuel. *)
@@ -104,7 +113,7 @@ Definition load_chunk (store : store_t) (nc : nullchunk) (calls : nat) (s : ipos
     (mkpos (pos s) (cur_id s) (fst nc) (cur_idx s) (cur_off s), calls, None)
   else
     match store calls (cur_id s) with
-    | SFail c => (s, S calls, Some (EStore c))
+    | SFail c => (s, S calls, Some (store_err c))
     | SData d =>
         if (length d =? 0)%nat then (s, S calls, Some ENoData)
         else (mkpos (pos s) (cur_id s) d (cur_idx s) (cur_off s), S calls, None)
@@ -141,7 +150,7 @@ Fixpoint read_loop (fuel : nat) (store : store_t) (nc : nullchunk) (idx : index)
     let '(s1, calls1, lerr) :=
       if (length (cur_chunk s) =? 0)%nat then load_chunk store nc calls s else (s, calls, None) in
     match lerr with
-    | Some e => Ret (s1, calls1, acc, Some e)
+    | Some e => Ret (s1, calls1, acc, Some (read_err e))     (* a store's io.EOF is not the end of this stream *)
     | None =>
       if Z.of_nat (length (cur_chunk s1)) <? cur_off s1 then Panic       (* slice bounds out of range *)
       else if cur_off s1 <? 0 then Panic
@@ -312,8 +321,7 @@ Definition read_post (H : bytes -> id) (blob : bytes) (store : store_t) (calls :
       match e with
       | None => p < L /\ Z.of_nat (length d) = Z.min (Z.of_nat plen) (L - p)
       | Some EEOF => p = L /\ d = []
-      | Some (EStore c) => p < L /\ exists k i, (calls <= k < calls')%nat /\ store k i = SFail c
-      | Some _ => False
+      | Some x => p < L /\ exists c k i, x = read_err (store_err c) /\ (calls <= k < calls')%nat /\ store k i = SFail c
       end
   | _ => False
   end.
